@@ -197,14 +197,19 @@ func monitors(cfg cfgT, log []event) (fails []fail, evals int) {
 				if l == nil {
 					break
 				}
-				if e.A == "ok" {
+				// Consul runs: what counts is what the lease service really said (e.Srv), not only what
+				// the leaser made of it
+				if e.A == "ok" && (e.Srv == "" || e.Srv == "200") {
 					l.failSince = -1
 					for _, q := range l.reqs {
 						q.renewOK = true
 					}
 				} else if l.failSince < 0 {
 					l.failSince = e.At
-					l.failKind = map[string]string{"expired": "expired", "err": "errors"}[e.A]
+					l.failKind = map[string]string{"expired": "expired", "err": "errors", "ok": map[string]string{"404": "expired"}[e.Srv]}[e.A]
+					if l.failKind == "" {
+						l.failKind = "errors"
+					}
 				}
 			}
 			// handoff requests accepted by the store
@@ -218,6 +223,9 @@ func monitors(cfg cfgT, log []event) (fails []fail, evals int) {
 					l.closedAt = i
 				}
 			}
+		case "gt":
+			// a leaser-level monitor (consulreplay.go: leaserMonitors) failed on this call of a Consul run
+			add(e.C, e.A, e.Detail, e)
 		case "frame":
 			// M6  the lease id goes only to the requested node, after a successful final renewal
 			evals++
